@@ -108,6 +108,10 @@ register(PropertySpec(
              "an expression object that finds itself bound already answers once for that binding and ends (it does not fall through into the ordinary evaluation)"),
         Rule("CONDITIONS-FORWARDED", _lazy("subquery", "rule_conditions_forwarded"), 4,
              "the building functions pass the conditions they are given on to the function that builds the query, in every arm"),
+        Rule("LOOP-RAN-FLAG", _lazy("flags", "rule_loop_ran_flag"), 3,
+             "a flag that says 'the stream produced no row' (and starts a fallback evaluation) is set by every row: no continue, early exit or condition bypasses the assignment"),
+        Rule("SEEN-RECORDED", _lazy("flags", "rule_seen_recorded"), 1,
+             "a local collection that is asked 'seen before?' to drop a row is added to on every path from 'not seen' to the yield (the rows replayed from a result cache are replayed once)"),
     ],
     explanation="Decides the clause 'the condition vocabulary denotes the ordinary Python operator': the node each "
                 "public comparison/membership entry constructs (arguments mapped to dataclass fields through the MRO "
@@ -171,6 +175,8 @@ register(PropertySpec(
              "(shared with C15) the attribute hook builds a new node per mention: not_(x.flag) must not invert the other bare uses of x.flag"),
         Rule("DEDUP-TRUTH-UP", _lazy("binding", "rule_dedup_truth_up"), 1,
              "(shared with C02) an operator asks its parent what to keep under the truth it can still have: below a negation the right side of the rewritten else-if must stay in the key"),
+        Rule("OPERATION-ON-VALUES", _lazy("flags", "rule_operation_on_values"), 1,
+             "(shared with C19) not_(contains(a, b)) is the complement of contains(a, b) for every value: the complement operation does not look at the truth of its operands"),
     ],
     explanation="Negation is a rewrite at construction time, so it is a function on syntax and is decided from the "
                 "source: the inverse-operator table is extracted by abstract evaluation of the setter's CFG (match / if "
@@ -219,6 +225,8 @@ register(PropertySpec(
              "(shared with C09) the stack of open query blocks is read at call time only: leaving a block restores exactly the expression context for every reader"),
         Rule("MODE-OFF-DOM", _lazy("modes", "rule_mode_off_dom"), 2,
              "(shared with C09) the evaluation is advanced AND closed with the mode switched off and its own context stack: user code suspended inside it is finalised in the evaluation's environment, not in the caller's block"),
+        Rule("NO-SHARED-DEFAULT", _lazy("modes", "rule_no_shared_default"), 1,
+             "no parameter default creates a mutable object (the context stack of an evaluation, an accumulator) that the body stores, hands on or changes: such an object is one for all calls"),
     ],
     explanation="The mode is a context variable with a closed set of writers, so confinement is a pairing property over "
                 "all exits of the code that writes it. Decided on the CFG with exceptional and generator-suspension "
@@ -253,6 +261,10 @@ register(PropertySpec(
              "(shared with C12) only a RULE block opened on a query makes it a rule: a query-mode block on a rule leaves it a rule, so evaluating inside that block gives what evaluating outside gives"),
         Rule("MEMO-ON-PULL", _lazy("lazy", "rule_memo_on_pull"), 3,
              "(shared with C07) the source of a domain is wrapped lazily: a sub-query given as a domain is not evaluated when the variable is declared (inside the block, without the evaluation's mode override)"),
+        Rule("NO-SHARED-DEFAULT", _lazy("modes", "rule_no_shared_default"), 1,
+             "(shared with C08) the stack an evaluation works on is new per evaluation, never a parameter default shared by all calls"),
+        Rule("STREAM-UNDER-CLEANUP", _lazy("flags", "rule_stream_under_cleanup"), 1,
+             "a method that holds state for the duration of an evaluation in a try/finally or with bracket produces the rows inside it (yield from), it does not return an unstarted generator from inside the bracket"),
     ],
     explanation="User predicates and @symbol constructors consult the ambient mode; the result is mode-independent iff "
                 "every public entry switches the mode off around every point at which evaluation runs. That is a "
@@ -342,6 +354,10 @@ register(PropertySpec(
              "the stores of a class and of its subclasses are all read before the first instance is handed out: an evaluation that also constructs instances does not range over its own output"),
         Rule("EVAL-PARENT-SET", _lazy("binding", "rule_eval_parent_set"), 7,
              "(shared with C01) what a query answers does not depend on which other query was BUILT with the same condition object last"),
+        Rule("LOOP-RAN-FLAG", _lazy("flags", "rule_loop_ran_flag"), 3,
+             "a flag that says 'the stream produced no row' (and starts a fallback evaluation) is set by every row: no continue, early exit or condition bypasses the assignment"),
+        Rule("SEEN-RECORDED", _lazy("flags", "rule_seen_recorded"), 1,
+             "a local collection that is asked 'seen before?' to drop a row is added to on every path from 'not seen' to the yield (the rows replayed from a result cache are replayed once)"),
     ],
     explanation="History independence is absence of residue on the shared expression nodes. Decided: where residue is "
                 "written (discovered mechanically from dataclass fields and mutation sites reachable from evaluation "
@@ -416,6 +432,12 @@ register(PropertySpec(
              "the row the duplicate test looks at is the row that is handed on when it answers 'new' (path rule from every call of the test to the next yield)"),
         Rule("DECL-FILTER", _lazy("predform", "rule_decl_filter_paths"), 1,
              "(shared with C13) every supplied domain is filtered by isinstance (a single object of a subclass is a domain of one value)"),
+        Rule("REQUANTIFY-DESCRIPTION", _lazy("the", "rule_requantify_description"), 1,
+             "an already quantified predicate-form term handed to an()/the()/infer() is re-wrapped by its description (conditions included), never by its selected variable alone"),
+        Rule("BIND-THREAD", _lazy("binding", "rule_bind_thread"), 30,
+             "(shared with C01) every operand is evaluated under the binding of the enclosing row: a conjunct that enumerates an already bound variable afresh gives `the` a second, spurious solution"),
+        Rule("REG-SNAPSHOT", _lazy("registry", "rule_reg_snapshot"), 1,
+             "(shared with C14) the instances a variable without a domain ranges over are read from all stores before the first is handed out: what user code constructs during the evaluation is not a second solution"),
     ],
     explanation="The three outcomes of `the` are decided by a typestate interpretation of its evaluator over the finite "
                 "state space (result None/solution, solutions consumed 0/1/>=2, _is_false_), exception classes resolved "
@@ -469,6 +491,10 @@ register(PropertySpec(
              "(shared with C13) an inner scalar that is a class object is one element"),
         Rule("CONDITIONS-FORWARDED", _lazy("subquery", "rule_conditions_forwarded"), 4,
              "the building functions pass the conditions they are given on to the function that builds the query, in every arm"),
+        Rule("OPERATION-ON-VALUES", _lazy("flags", "rule_operation_on_values"), 1,
+             "(shared with C19) the negated membership test is exactly the complement of the membership test, whatever the truthiness of the container"),
+        Rule("VALUE-IDENTITY", _lazy("extra", "rule_value_identity"), 8,
+             "(shared with C20) two parents (or two tested values) that carry equal _id_ attributes of their own stay two values"),
     ],
     explanation="Decides: exactly-one-row by counting yields over all CFG paths; and interface agreement among the "
                 "implementations of the evaluation protocol (a concatenate used where the protocol passes "
@@ -536,6 +562,8 @@ register(PropertySpec(
              "what a selector records as concluded for a row is taken back when a refinement above fires for that row"),
         Rule("REFINEMENT-PER-ROW", _lazy("ruletree", "rule_refinement_per_row"), 1,
              "the true rows of a refinement are keyed by the variables of the branch it refines"),
+        Rule("SELECT-EVERY-ROW", _lazy("ruletree", "rule_select_every_row"), 3,
+             "a selector draws its conclusions for every row it hands on: no selection inside a row loop is guarded by a local carried from one row to the next (a 'first row' flag)"),
     ],
     explanation="Attaching a branch rewires the condition tree in place; evaluation follows the left/right fields, not "
                 "the graph edges, so a selector that is attached in the graph but not stored in its parent's operand slot "
@@ -591,6 +619,10 @@ register(PropertySpec(
              "(shared with C20) a domain of distinct objects stays distinct: the identifier of a wrapped value is its identity, and an identifier carried in _id_ is believed only of the package's own expressions"),
         Rule("BIND-THREAD", _lazy("binding", "rule_bind_thread"), 30,
              "(shared with C01) a nested term is evaluated under the binding of the enclosing term"),
+        Rule("REQUANTIFY-DESCRIPTION", _lazy("the", "rule_requantify_description"), 1,
+             "an already quantified predicate-form term handed to an()/the()/infer() is re-wrapped by its description (conditions included), never by its selected variable alone"),
+        Rule("QUANTIFIER-KIND", _lazy("the", "rule_quantifier_kind"), 3,
+             "(shared with C06) the(T(From(d), f=v)) is a The over the description of the term, as the(entity(x, x.f == v)) is"),
     ],
     explanation="Decides the construction-time clauses: positional binding re-implemented by the library agrees with "
                 "Python's (finite abstract evaluation of the loop over scenario argument lists), the type filter uses "
@@ -721,6 +753,10 @@ register(PropertySpec(
              "the row the duplicate test looks at is the row that is handed on when it answers 'new' (path rule from every call of the test to the next yield)"),
         Rule("RETRIEVE-ALL-BRANCHES", _lazy("cacheidx", "rule_retrieve_bound_branches"), 2,
              "(shared with C20) a lookup that binds a key follows the entry stored for that value and the entry that leaves the key open: otherwise a row is lost on a cache hit, depending on the order in which the variables were declared"),
+        Rule("LOOP-RAN-FLAG", _lazy("flags", "rule_loop_ran_flag"), 3,
+             "a flag that says 'the stream produced no row' (and starts a fallback evaluation) is set by every row: no continue, early exit or condition bypasses the assignment"),
+        Rule("SEEN-RECORDED", _lazy("flags", "rule_seen_recorded"), 1,
+             "a local collection that is asked 'seen before?' to drop a row is added to on every path from 'not seen' to the yield (the rows replayed from a result cache are replayed once)"),
     ],
     explanation="Decides that the runtime switch governs reads and writes consistently: the asymmetric state (reads "
                 "unguarded, writes guarded) changes results because an empty lookup marks everything covered. Not "
@@ -798,6 +834,8 @@ register(PropertySpec(
              "what a class's own __new__ returns is registered only when it is an instance of the class"),
         Rule("REG-SNAPSHOT", _lazy("registry", "rule_reg_snapshot"), 1,
              "the stores of a class and of its subclasses are all read before the first instance is handed out: an evaluation that also constructs instances does not range over its own output"),
+        Rule("CONCLUSION-VARS-BOUND", _lazy("ruletree", "rule_conclusion_vars_which"), 6,
+             "(shared with C12) a variable without a domain that only a conclusion mentions ranges over all registered instances for every firing row"),
     ],
     explanation="Registry discipline is ownership: a single writer, on a must-pass-through path of the concrete "
                 "constructor arm, keyed by the runtime class; the symbolic arm provably (call-graph closure) cannot "
@@ -909,6 +947,8 @@ register(PropertySpec(
              "(shared with C16) the mappings read the user object when they are evaluated"),
         Rule("OPDEN", _lazy("opden", "rule_opden"), 8,
              "(shared with C01) == True / == False build comparisons with the singleton, they are not rewritten into the truth of the expression"),
+        Rule("OPERATION-ON-VALUES", _lazy("flags", "rule_operation_on_values"), 1,
+             "the package's own comparison operations (the complement of contains) only hand their operands to the operator: no operand is asked for its truth or for being None"),
     ],
     explanation="An effect property: in which positions may a value's truthiness decide whether a row survives. The "
                 "positions are the evaluation call sites; their role is the resolved dataclass field of the receiver "
@@ -1082,6 +1122,8 @@ register(PropertySpec(
              "engine code compares nodes by identity: == / != on a node-valued slot would build a (truthy) comparison expression"),
         Rule("REPLAY-DEDUP", _lazy("cacheidx", "rule_replay_dedup"), 3,
              "(shared with C05) a replay suppresses duplicate true rows exactly when the evaluating path it stands for does: the same object twice in one collection stays two rows on re-evaluation"),
+        Rule("SELECT-EVERY-ROW", _lazy("ruletree", "rule_select_every_row"), 3,
+             "a selector draws its conclusions for every row it hands on: no selection inside a row loop is guarded by a local carried from one row to the next (a 'first row' flag)"),
     ],
     explanation="UNNEST is 'one row per inner element, all other variables keep the binding that produced it': the "
                 "first half is a path property of one small generator, the second is the BIND-KEEP provenance rule at "
@@ -1125,6 +1167,10 @@ register(PropertySpec(
              "the record of what was pulled from a one-shot source is appended to only with the value just pulled, and emptied only by clear()"),
         Rule("EXPRESSION-NOT-ITERATED", _lazy("lazy", "rule_expression_not_iterated"), 5,
              "no expression object (an element of selected_variables / child variables, an expression parameter) is handed to something that iterates it: iterating a Variable enumerates its domain"),
+        Rule("PULLED-SO-FAR-NOT-ASKED", _lazy("lazy", "rule_pulled_so_far_not_asked"), 1,
+             "no condition outside the container reads what has been pulled from a variable's domain so far (the memo): what a query delivers does not depend on who advanced a shared iterator before"),
+        Rule("VALUE-IDENTITY", _lazy("extra", "rule_value_identity"), 8,
+             "(shared with C20) distinct elements of the iterator stay distinct in the memo: the identifier of a wrapped value is its identity, an _id_ attribute is believed only of the package's own expressions"),
     ],
     explanation="Laziness is preserved iff nothing on the path from the user's domain to the user's next() materialises a "
                 "stream. That is a may-materialise taint analysis over every function that handles evaluation streams or "
@@ -1219,6 +1265,12 @@ register(PropertySpec(
              "(shared with C12) engine code compares nodes by identity (== / in on a node reads an unset field of the graph node, or builds a comparison)"),
         Rule("REG-SNAPSHOT", _lazy("registry", "rule_reg_snapshot"), 1,
              "the stores of a class and of its subclasses are all read before the first instance is handed out: an evaluation that also constructs instances does not range over its own output"),
+        Rule("STREAM-UNDER-CLEANUP", _lazy("flags", "rule_stream_under_cleanup"), 1,
+             "a method that holds state for the duration of an evaluation in a try/finally or with bracket produces the rows inside it (yield from), it does not return an unstarted generator from inside the bracket"),
+        Rule("PULLED-SO-FAR-NOT-ASKED", _lazy("lazy", "rule_pulled_so_far_not_asked"), 1,
+             "(shared with C07) whether a selected variable has a supplied domain is not decided by what has been pulled from it so far"),
+        Rule("LITERAL-WRAP", _lazy("extra", "rule_literal_wrap"), 1,
+             "(shared with C19) a constant head argument is ONE value whatever it is: a constant collection is not spread into its elements"),
     ],
     explanation="All clauses are weak but necessary: arguments evaluated under the current binding, one construction "
                 "per combination, no retrieval instead of construction for inferred variables, existing objects passed "
@@ -1284,6 +1336,10 @@ register(PropertySpec(
              "(shared with C20) a lookup that binds a key follows the entry stored for that value and the entry that leaves the key open: otherwise a row is lost on a cache hit, depending on the order in which the variables were declared"),
         Rule("FORALL-KEY", _lazy("forall", "rule_forall_key"), 2,
              "(shared with C10) what for_all asks of its condition depends only on who asks: an or_ nested below an and_ inside the condition keeps the universal variable in its key, whichever operand order"),
+        Rule("LOOP-RAN-FLAG", _lazy("flags", "rule_loop_ran_flag"), 3,
+             "a flag that says 'the stream produced no row' (and starts a fallback evaluation) is set by every row: no continue, early exit or condition bypasses the assignment"),
+        Rule("BOUND-AGAIN-TRUTH", _lazy("values", "rule_bound_again_truth"), 1,
+             "(shared with C03) a condition object that occurs twice reads, the second time, the truth of the value it is bound to with its negation applied"),
     ],
     explanation="Two of the six listed rewrites are decided: mirrored comparisons and contains/in_, by the OPDEN "
                 "denotation rule (C01). Commutativity/associativity of and/or, declaration/selection order and domain "
@@ -1358,6 +1414,10 @@ register(PropertySpec(
              "a node asks its parent what to keep of its rows in its own name (the parent recognises the asking operand by identity)"),
         Rule("BOUND-AGAIN-ONCE", _lazy("values", "rule_bound_again_once"), 3,
              "an expression object that finds itself bound already answers once for that binding and ends (it does not fall through into the ordinary evaluation)"),
+        Rule("REQUANTIFY-DESCRIPTION", _lazy("the", "rule_requantify_description"), 1,
+             "an already quantified predicate-form term handed to an()/the()/infer() is re-wrapped by its description (conditions included), never by its selected variable alone"),
+        Rule("FLAG-PER-ROW", _lazy("flags", "rule_flag_per_row"), 8,
+             "inside a loop over rows, a read of the expression's own truth flag that follows an assignment to it is reached only when one of the assignments was executed for this row (structural conditions apart)"),
     ],
     explanation="Decides the structural clauses of the three mechanisms the property is anchored in: (1) a quantifier node in "
                 "the middle of a tree is transparent for truth (same truth table as its conditions, request for false rows passed "
